@@ -61,11 +61,16 @@ theorem requests_on_published_table (ring0 : List Nat) (hN : 0 < ring0.length) (
     r.1.ring = ring0 ∧ r.1.rules = rules0 ∧ s.total ≤ r.1.core.total ∧
     (allPicksT r.2).Perm ((List.range' s.total K).map (· % N)) ∧
     (∀ t ∈ r.2, (∀ e ∈ t.loc.targets, e.2 = ring0[e.1]?.getD 0) ∧
-                (∀ e ∈ t.loc.scans, e.2 = rules0.any (·.contains e.1))) := by
+                (∀ e ∈ t.loc.scans, e.2 = rules0.any (·.contains e.1))) ∧
+    K ≤ (ass.map List.length).sum ∧ (finished r.2 = true → K = (ass.map List.length).sum) := by
   intro N ts r K
+  have hzero : ∀ l : List Nat, (l.map (fun _ => 0)).sum = 0 := by
+    intro l; induction l with
+    | nil => rfl
+    | cons a l ih => simp only [List.map_cons, List.sum_cons, ih]
   have hpub := published_table_any_schedule ring0 rules0 (ts.map STh.toT)
     { core := s, ring := ring0, rules := rules0 } sch ?_ ⟨rfl, rfl⟩ ?_
-  · refine ⟨hpub.1, hpub.2.1, ?_, ?_, hpub.2.2⟩
+  · refine ⟨hpub.1, hpub.2.1, ?_, ?_, hpub.2.2, ?_, ?_⟩
     all_goals
       obtain ⟨sch', ts', e1, e2⟩ := run_proj sch ts { core := s, ring := ring0, rules := rules0 }
       have hproj : ts.map STh.proj = (ass.map List.length ++ readers.map (fun _ => 0)).map (rrThreadRepaired N) := by
@@ -80,6 +85,22 @@ theorem requests_on_published_table (ring0 : List Nat) (hN : 0 < ring0.length) (
     · have hp := hrr.2.2.2
       rw [allPicks_proj, ← e1] at hp
       exact hp
+    · have := hrr.2.1
+      rw [List.sum_append, hzero, Nat.add_zero] at this
+      exact this
+    · intro hfin
+      have hf : finished (ts'.map STh.proj) = true := by
+        have e1' : r.2 = ts'.map STh.toT := e1
+        rw [e1'] at hfin
+        simp only [finished, List.all_eq_true, List.mem_map, forall_exists_index, and_imp,
+          forall_apply_eq_imp_iff₂] at hfin ⊢
+        intro t ht
+        have := hfin t ht
+        have ho : t.ops = [] := by simpa [STh.toT] using this
+        simp [STh.proj, ho]
+      have := hrr.2.2.1 hf
+      rw [List.sum_append, hzero, Nat.add_zero] at this
+      exact this
   · intro t ht f hf
     simp only [List.mem_map] at ht
     obtain ⟨st, _, rfl⟩ := ht
@@ -91,6 +112,65 @@ theorem requests_on_published_table (ring0 : List Nat) (hN : 0 < ring0.length) (
     obtain ⟨st, hst, rfl⟩ := ht
     simp only [ts, List.mem_append, List.mem_map] at hst
     rcases hst with ⟨as, _, rfl⟩ | ⟨k, _, rfl⟩ <;> exact tLocalInv_init ring0 rules0
+
+/-- **Each target its exact share, end to end.**  In the setting of `requests_on_published_table`, once every goroutine
+has finished: the number of times target `tg` was actually READ from the shared ring and handed to a request equals
+`targetShare ring0 c K tg` — its exact share of the `K` lookups performed — for every schedule.  (Linkage: every
+index a goroutine is handed is read from the ring by its very next table operation, `Lemmas.C06.Linked`; the reads
+see the published ring, `published_table_any_schedule`; the indices are `{c..c+K-1} mod N`, projection.) -/
+theorem target_share_on_published_table (ring0 : List Nat) (hN : 0 < ring0.length) (rules0 : List Block)
+    (ass : List (List Addr)) (readers : List Nat) (s : State) (sch : List Nat) (tg : Nat) :
+    let N := ring0.length
+    let ts := ass.map (requestThread N rules0.length) ++ readers.map readerThread
+    let r := run sch (ts.map STh.toT) { core := s, ring := ring0, rules := rules0 }
+    let K := r.1.core.total - s.total
+    finished r.2 = true →
+      ((allTargetsT r.2).map (·.2)).count tg = targetShare ring0 s.total K tg := by
+  intro N ts r K hfin
+  have hE := requests_on_published_table ring0 hN rules0 ass readers s sch
+  obtain ⟨_, _, _, hperm, hpub, _, _⟩ := hE
+  -- linkage
+  obtain ⟨ts', e1, hl⟩ := run_syn Linked linked_step sch ts { core := s, ring := ring0, rules := rules0 } (by
+    intro t ht
+    simp only [ts, List.mem_append, List.mem_map] at ht
+    rcases ht with ⟨as, _, rfl⟩ | ⟨k, _, rfl⟩
+    · exact linked_request N rules0.length hN as
+    · exact linked_reader k)
+  have e1' : r.2 = ts'.map STh.toT := e1
+  have hops : ∀ t ∈ ts', t.ops = [] := by
+    intro t ht
+    have hf : finished (ts'.map STh.toT) = true := by rw [← e1']; exact hfin
+    simp only [finished, List.all_eq_true, List.mem_map, forall_exists_index, and_imp,
+      forall_apply_eq_imp_iff₂] at hf
+    have := hf t ht
+    simpa [STh.toT] using this
+  have hA : allPicksT r.2 = (allTargetsT r.2).map (·.1) := by
+    rw [e1']
+    simp only [allPicksT, allTargetsT, List.flatMap_map, List.map_flatMap]
+    have hcongr : ∀ (l : List STh), (∀ t ∈ l, t.loc.core.picks = t.loc.targets.map (·.1)) →
+        l.flatMap (fun t => t.toT.loc.core.picks) = l.flatMap (fun t => t.toT.loc.targets.map (·.1)) := by
+      intro l
+      induction l with
+      | nil => intro _; rfl
+      | cons a l ih =>
+        intro h
+        rw [List.flatMap_cons, List.flatMap_cons, ih (fun t ht => h t (List.mem_cons_of_mem _ ht))]
+        congr 1
+        exact h a List.mem_cons_self
+    exact hcongr ts' (fun t ht => linked_finished t (hl t ht) (hops t ht))
+  have hB : (allTargetsT r.2).map (·.2) = (allTargetsT r.2).map (fun e => ring0[e.1]?.getD 0) := by
+    apply List.map_congr_left
+    intro e he
+    simp only [allTargetsT, List.mem_flatMap] at he
+    obtain ⟨t, ht, het⟩ := he
+    exact (hpub t ht).1 e het
+  have hC : (allTargetsT r.2).map (fun e => ring0[e.1]?.getD 0)
+      = (allPicksT r.2).map (fun i => ring0[i]?.getD 0) := by
+    rw [hA, List.map_map]; rfl
+  rw [hB, hC]
+  have := (hperm.map (fun i => ring0[i]?.getD 0)).count_eq tg
+  rw [List.map_map] at this
+  exact this
 
 /-- the scan over the whole list and the closed form agree sequentially (one goroutine, its own schedule) -/
 theorem scan_alone (rules0 : List Block) (a : Addr) (ring : List Nat) :
@@ -209,5 +289,24 @@ example :
       (outputs r).map (·.targets) = [[(1, 0), (0, 2)], [(2, 1)], []] ∧
       (outputs r).map (·.scans) = [[(a, true), (b, false)], [(b, false)], []] := by
   decide
+
+/-- `target_share_on_published_table` instantiated: three requests on the ring `[2, 0, 1]` are one whole cycle — target
+0 is read and handed out exactly once, for every schedule that completes -/
+example (sch : List Nat) (a b : Addr) :
+    let ts := [requestThread 3 2 [a, b], requestThread 3 2 [b], readerThread 2]
+    let r := run sch (ts.map STh.toT)
+      { core := { total := 7 }, ring := [2, 0, 1], rules := [⟨32, 167772160, 8⟩, ⟨32, 3232235520, 16⟩] }
+    finished r.2 = true → ((allTargetsT r.2).map (·.2)).count 0 = 1 := by
+  intro ts r hfin
+  have hK := (requests_on_published_table [2, 0, 1] (by decide) [⟨32, 167772160, 8⟩, ⟨32, 3232235520, 16⟩]
+    [[a, b], [b]] [2] { total := 7 } sch).2.2.2.2.2.2 hfin
+  have h := target_share_on_published_table [2, 0, 1] (by decide) [⟨32, 167772160, 8⟩, ⟨32, 3232235520, 16⟩]
+    [[a, b], [b]] [2] { total := 7 } sch 0 hfin
+  simp only [] at hK h
+  rw [hK] at h
+  have e : targetShare [2, 0, 1] 7 (List.map List.length [[a, b], [b]]).sum 0 = 1 := by
+    show targetShare [2, 0, 1] 7 3 0 = 1
+    decide
+  exact h.trans e
 
 end Fabio.Props.C06Access
